@@ -1,5 +1,5 @@
 """C13 - cubical complexes are valid filtered cell complexes with correct incidences."""
-import itertools, math, os
+import itertools, json, math, os
 from vlib import core
 
 LEVEL = "proof"
@@ -118,10 +118,36 @@ def shapes_exhaustive(maxd=3, maxs=4):
             yield sizes
 
 
+def case_of_line(group, ops=None):
+    w = group.split()
+    d = int(w[3])
+    cls, conv = w[1], w[2]
+    mask = [x == "1" for x in w[4 + d:4 + 2 * d]]
+    dims = [int(x) for x in w[4:4 + d]]
+    sizes = dims if conv == "top" else [s if (m and cls == "per") else s - 1 for s, m in zip(dims, mask)]
+    c = Case(cls, conv, sizes, mask, w[4 + 2 * d:])
+    if ops is not None:
+        c.ops = list(ops)
+    return c
+
+
+def corpus_cases():
+    d = os.path.join(core.ROOT, "corpus", "C13")
+    out = []
+    if os.path.isdir(d):
+        for f in sorted(os.listdir(d)):
+            if f.endswith(".json"):
+                j = json.load(open(os.path.join(d, f)))
+                c = case_of_line(j["group"])
+                c.style = "corpus"
+                out.append(c)
+    return out
+
+
 def generate(ctx):
     rng = ctx.rng
     thorough = ctx.tier == "thorough"
-    cases = []
+    cases = corpus_cases()
     k = 0
     for sizes in shapes_exhaustive():
         d = len(sizes)
@@ -379,16 +405,7 @@ def check(ctx, replay=None):
     drv = ctx.build_harness("c13_drv.cpp", flags=[])
     orc = ctx.build_oracle("c13")
     if replay:
-        w = replay["case"]["group"].split()
-        d = int(w[3])
-        cls, conv = w[1], w[2]
-        mask = [x == "1" for x in w[4 + d:4 + 2 * d]]
-        dims = [int(x) for x in w[4:4 + d]]
-        sizes = dims if conv == "top" else [s if (m and cls == "per") else s - 1 for s, m in zip(dims, mask)]
-        c = Case(cls, conv, sizes, mask, w[4 + 2 * d:])
-        c.ops = list(replay["case"]["ops"])
-        if not all(k in c.ops for k in ("dims", "vals", "bd", "cobd")) and False:
-            pass
+        c = case_of_line(replay["case"]["group"], replay["case"]["ops"])
         cases = [c]
     else:
         cases = generate(ctx)
